@@ -121,6 +121,7 @@ class Engine:
         self._inc = None
         self.nfeas = 0
         self.abstracted = set()  # locals replaced by an opaque value (reported in evidence)
+        self.lift = {}           # id(real global object) -> symbolic value standing for it (singletons such as BOOL, TIME)
         self.yield_hooks = {}    # qualname of a generator function -> hook(engine, st, value)
         from . import builtins as B
         self.B = B
@@ -303,6 +304,10 @@ class Engine:
                 yield from self.branch(st, v.keys.n > 0, note)
                 return
             raise Unsupported("truth value of unordered symbolic map/set")
+        if isinstance(v, SRef) and getattr(v.t, "null", None) is not None:
+            for s2, isnull in self.branch(st, v.z == v.t.null, note):
+                yield s2, not isnull
+            return
         if isinstance(v, (SRef, SEnum, Struct, BoundMethod, Closure, ExcVal)):
             yield st, True
             return
@@ -330,6 +335,10 @@ class Engine:
             return Real.fresh(name)
         if isinstance(v, (SBool, SInt, SReal, SStr, SRef, SEnum)):
             return v.t.fresh(name)
+        if isinstance(v, self.B.X.SExt) or isinstance(v, float):
+            r = self.B.X.Ext.fresh(name)
+            st.assume(r.wf())
+            return r
         if isinstance(v, SSeq):
             r = Seq(v.te).fresh(name)
             st.assume(r.n >= 0)
@@ -366,7 +375,9 @@ class Engine:
         return v
 
     def assume_wf(self, st, v):
-        if isinstance(v, SSeq):
+        if isinstance(v, self.B.X.SExt):
+            st.assume(v.wf())
+        elif isinstance(v, SSeq):
             st.assume(v.n >= 0)
         elif isinstance(v, (SMap, SSet)) and v.keys is not None:
             st.assume(v.keys.n >= 0)
@@ -513,7 +524,36 @@ class Engine:
             return a
         if a is POISON or b is POISON:
             return None
+        if (a is None or b is None or isinstance(a, SUnion) or isinstance(b, SUnion)) and not isinstance(a, Loc) and not isinstance(b, Loc):
+            # optional values: join into a guarded union (None alternatives collapsed; non-None alternatives merged when possible)
+            aa = a.alts if isinstance(a, SUnion) else [(z3.BoolVal(True), a)]
+            bb = b.alts if isinstance(b, SUnion) else [(z3.BoolVal(True), b)]
+            none_g, vals = [], []
+            for gg, alts in ((g, aa), (z3.Not(g), bb)):
+                for ga, va in alts:
+                    if isinstance(va, (Loc, Poison)):
+                        return None
+                    if va is None:
+                        none_g.append(z3.And(gg, ga))
+                    else:
+                        vals.append((z3.simplify(z3.And(gg, ga)), va))
+            if len(vals) == 2:
+                m = self.merge_value(vals[0][0], vals[0][1], vals[1][1])
+                if m is not None and not isinstance(m, SUnion):
+                    vals = [(z3.simplify(z3.Or(vals[0][0], vals[1][0])), m)]
+            out = ([(z3.simplify(z3.Or(none_g)), None)] if none_g else []) + vals
+            if len(out) == 1:
+                return out[0][1]
+            if len(out) > 4:
+                return None
+            return SUnion(out)
         num = (int, Fraction, SInt, SReal)
+        X = self.B.X
+        if (X.is_extlike(a) or X.is_extlike(b)) and not (isinstance(a, float) and isinstance(b, float)):
+            ea, eb = X.to_ext(a), X.to_ext(b)
+            if ea is None or eb is None:
+                return None
+            return X.simplify(X.ite(g, ea, eb))
         if isinstance(a, bool) and isinstance(b, bool) and a == b:
             return a
         if isinstance(a, (bool, SBool)) and isinstance(b, (bool, SBool)):
@@ -584,6 +624,9 @@ class Engine:
                         continue
                     return None
                 v = self.merge_value(g, fa.vars[k], fb.vars[k])
+                if v is None and fa.vars[k] is None and fb.vars[k] is None:
+                    fm.vars[k] = None
+                    continue
                 if v is None:
                     if fa.vars[k] is None or fb.vars[k] is None or isinstance(fa.vars[k], Poison) or isinstance(fb.vars[k], Poison):
                         v = POISON     # dead temporaries of different shapes: poisoned, not merged
@@ -1133,7 +1176,8 @@ class Engine:
             yield st, ExcVal(UnboundLocalError, (name,), self.where(st, node))
             return
         if name in fr.globals:
-            yield st, fr.globals[name]
+            v = fr.globals[name]
+            yield st, self.lift.get(id(v), v) if self.lift else v
             return
         if hasattr(_bi, name):
             yield st, getattr(_bi, name)
@@ -1320,7 +1364,9 @@ class Engine:
                 continue
             for s2, v2 in self.force(s, v):
                 if isinstance(node.op, ast.USub):
-                    if isinstance(v2, (int, Fraction, SInt, SReal)):
+                    if isinstance(v2, self.B.X.SExt):
+                        yield s2, self.B.X.simplify(self.B.X.neg(v2))
+                    elif isinstance(v2, (int, Fraction, SInt, SReal, float)):
                         yield s2, -v2
                     else:
                         yield from self.dunder(s2, v2, "__neg__", [], node)
@@ -1432,7 +1478,7 @@ class Engine:
             yield s, r
 
     # ===================================================================== attribute access
-    def getattr(self, st, obj, name, node=None):
+    def getattr(self, st, obj, name, node=None, _nonnull=False):
         if isinstance(obj, SUnion):
             for s, o in self.force(st, obj):
                 yield from self.getattr(s, o, name, node)
@@ -1455,6 +1501,13 @@ class Engine:
                 yield from self._class_attr(st, obj, c.cls, name, node)
                 return
             yield st, ContainerMethod(obj, name)
+            return
+        if isinstance(obj, SRef) and getattr(obj.t, "null", None) is not None and not _nonnull:
+            for s2, isnull in self.branch(st, obj.z == obj.t.null, f"null.{name}"):
+                if isnull:
+                    yield s2, ExcVal(AttributeError, (name,), self.where(s2, node) if node else "")
+                else:
+                    yield from self.getattr(s2, obj, name, node, _nonnull=True)
             return
         if isinstance(obj, SRef):
             t = obj.t
